@@ -48,12 +48,16 @@ class Feed:
 def run_1090(script, settle=0.4, extra_args=()):
     """runs `1090` against a scripted feed; returns (stdout text, alive_at_end, returncode or None)"""
     f = Feed(); f.run([("accept",)] + script)
-    p = subprocess.Popen([app("1090"), "--host", "127.0.0.1", "--port", str(f.port)] + list(extra_args), stdout=subprocess.PIPE, stderr=subprocess.PIPE)
+    # stdout and stderr go to files, not pipes: a pipe that nobody drains blocks the client once it has printed 64 KiB
+    import tempfile
+    os.makedirs(os.path.join(VERIF, ".work"), exist_ok=True)
+    fo = tempfile.TemporaryFile(dir=os.path.join(VERIF, ".work")); fe = tempfile.TemporaryFile(dir=os.path.join(VERIF, ".work"))
+    p = subprocess.Popen([app("1090"), "--host", "127.0.0.1", "--port", str(f.port)] + list(extra_args), stdout=fo, stderr=fe)
     f.done.wait(60)
     time.sleep(settle)
     alive = p.poll() is None
-    p.kill()
-    out, err = p.communicate()
+    p.kill(); p.wait()
+    fo.seek(0); out = fo.read(); fe.seek(0); err = fe.read(); fo.close(); fe.close()
     f.stop()
     return out.decode(errors="replace"), alive, p.returncode, err.decode(errors="replace"), f.err
 
